@@ -262,22 +262,23 @@ inductive Supported : Node → Prop
       Supported (Node.mk "Flatten" fields it ot (.dict []) [] [])
 
 /-- `n'` is what the reader rebuilds for the child `n`: the class constructor on the transported
-field values (generic primitives), resp. on the transported shape (Input / Output) -/
-inductive ChildBack : Node → Node → Prop
-  | generic (kind : String) (fields : List (String × Val)) (it ot : Val) (n' : Node)
-      (h : ∀ kw', (∀ k, lookup k kw' = (lookup k fields).bind backVal) → construct kind kw' = .ok n') :
-      ChildBack (Node.mk kind fields it ot (.dict []) [] []) n'
-  | input (it ot s : Val) (n' : Node) (hit : getItem it "input" = .ok s)
-      (h : ∀ s', backVal s = some s' → construct "Input" [("input_type", typeDict "input" s')] = .ok n') :
-      ChildBack (Node.mk "Input" [] it ot (.dict []) [] []) n'
-  | output (it ot s : Val) (n' : Node) (hot : getItem ot "output" = .ok s)
-      (h : ∀ s', backVal s = some s' → construct "Output" [("output_type", typeDict "output" s')] = .ok n') :
-      ChildBack (Node.mk "Output" [] it ot (.dict []) [] []) n'
-  | flatten (fields : List (String × Val)) (it ot s : Val) (n' : Node) (hit : getItem it "input" = .ok s)
-      (h : ∀ s' kw', backVal s = some s' →
-        (∀ k, lookup k kw' = if k = "input_type" then some (typeDict "input" s') else (lookup k fields).bind backVal) →
-        construct "Flatten" kw' = .ok n') :
-      ChildBack (Node.mk "Flatten" fields it ot (.dict []) [] []) n'
+field values (generic primitives), resp. on the transported shape (Input / Output / Flatten) -/
+def ChildBack (n n' : Node) : Prop :=
+  match n with
+  | Node.mk kind fields it ot _ _ _ =>
+    if kind = "Input" then
+      ∃ s, getItem it "input" = .ok s ∧
+        ∀ s', backVal s = some s' → construct "Input" [("input_type", typeDict "input" s')] = .ok n'
+    else if kind = "Output" then
+      ∃ s, getItem ot "output" = .ok s ∧
+        ∀ s', backVal s = some s' → construct "Output" [("output_type", typeDict "output" s')] = .ok n'
+    else if kind = "Flatten" then
+      ∃ s, getItem it "input" = .ok s ∧
+        ∀ s' kw', backVal s = some s' →
+          (∀ k, lookup k kw' = if k = "input_type" then some (typeDict "input" s') else (lookup k fields).bind backVal) →
+          construct "Flatten" kw' = .ok n'
+    else
+      ∀ kw', (∀ k, lookup k kw' = (lookup k fields).bind backVal) → construct kind kw' = .ok n'
 
 /-- one supported child, from its dictionary form through its group back to a node -/
 theorem child_step (n : Node) (hsup : Supported n) (d : Val) (hd : toDict n = .ok d) :
@@ -291,7 +292,10 @@ theorem child_step (n : Node) (hsup : Supported n) (d : Val) (hd : toDict n = .o
     cases hd
     refine ⟨_, rfl, by simp, ?_⟩
     intro fuel fuel' items n' hwr hrd
-    refine ChildBack.generic kind fields it ot n' ?_
+    have e1 : ¬ kind = "Input" := h2
+    have e2 : ¬ kind = "Output" := h3
+    have e3 : ¬ kind = "Flatten" := h4
+    simp only [ChildBack, e1, e2, e3, if_false]
     intro kw' hkw
     rw [← hrd]
     exact (generic_child_back fuel fuel' kind fields hw ⟨h1, h2, h3, h4⟩ hnt hnm hnd kw' hkw items hwr).symm
@@ -300,7 +304,8 @@ theorem child_step (n : Node) (hsup : Supported n) (d : Val) (hd : toDict n = .o
     cases hd
     refine ⟨_, rfl, by simp, ?_⟩
     intro fuel fuel' items n' hwr hrd
-    refine ChildBack.input it ot s n' hit ?_
+    simp only [ChildBack, if_true]
+    refine ⟨s, hit, ?_⟩
     intro s' hb
     rw [← hrd]
     exact (io_child_back fuel fuel' "Input" "input_type" "input" (Or.inl ⟨rfl, rfl, rfl⟩) s s' hs hb items hwr).symm
@@ -309,7 +314,9 @@ theorem child_step (n : Node) (hsup : Supported n) (d : Val) (hd : toDict n = .o
     cases hd
     refine ⟨_, rfl, by simp, ?_⟩
     intro fuel fuel' items n' hwr hrd
-    refine ChildBack.output it ot s n' hot ?_
+    have e1 : ¬ "Output" = "Input" := by decide
+    simp only [ChildBack, e1, if_false, if_true]
+    refine ⟨s, hot, ?_⟩
     intro s' hb
     rw [← hrd]
     exact (io_child_back fuel fuel' "Output" "output_type" "output" (Or.inr ⟨rfl, rfl, rfl⟩) s s' hs hb items hwr).symm
@@ -318,7 +325,10 @@ theorem child_step (n : Node) (hsup : Supported n) (d : Val) (hd : toDict n = .o
     cases hd
     refine ⟨_, rfl, by simp, ?_⟩
     intro fuel fuel' items n' hwr hrd
-    refine ChildBack.flatten fields it ot s n' hit ?_
+    have e1 : ¬ "Flatten" = "Input" := by decide
+    have e2 : ¬ "Flatten" = "Output" := by decide
+    simp only [ChildBack, e1, e2, if_false, if_true]
+    refine ⟨s, hit, ?_⟩
     intro s' kw' hb hkw
     rw [← hrd]
     exact (flatten_child_back fuel fuel' fields hnt hnm hnit hnd s s' hs hb kw' hkw items hwr).symm
@@ -456,6 +466,137 @@ theorem graph_end_to_end (version : String) (children : Nodes) (edges : List Edg
     rw [hfuel] at hfd
     exact ⟨n', hn', hback _ n' hfd⟩
 
+/-! ## exactness for flat graphs: `read(write(g))` is `g` up to the order of the node dictionary -/
+
+/-- nodes that are read back from their own group as exactly themselves -/
+inductive FileExact : Node → Prop
+  | simple (kind : String) (kw : List (String × Val)) (n : Node) (hk : kind ∈ simpleKinds)
+      (h : construct kind kw = .ok n) (hnot : lookup "input_type" kw = none ∧ lookup "output_type" kw = none)
+      (hmeta : n.metadata = .dict []) (hnative : ∀ k v, lookup k n.fields = some v → backVal v = some v) : FileExact n
+  | conv2d (kw : List (String × Val)) (n : Node) (h : construct "Conv2d" kw = .ok n)
+      (hmeta : n.metadata = .dict []) (hnative : ∀ k v, lookup k n.fields = some v → backVal v = some v) : FileExact n
+  | input (s : Val) (hn : backVal s = some s) :
+      FileExact (Node.mk "Input" [] (typeDict "input" s) (typeDict "output" s) (.dict []) [] [])
+  | output (s : Val) (hn : backVal s = some s) :
+      FileExact (Node.mk "Output" [] (typeDict "input" s) (typeDict "output" s) (.dict []) [] [])
+
+theorem not_dict_of_native (v : Val) (h : backVal v = some v) : ∀ d, v ≠ .dict d := by
+  intro d hv; subst hv; simp [backVal, h5Create] at h
+
+theorem generic_exact (kind : String) (n : Node) (hkind : n.kind = kind) (hleaf : n.children = [] ∧ n.edges = [])
+    (hw : kind ∈ Generated.whitelist)
+    (hg : kind ≠ "NIRGraph" ∧ kind ≠ "Input" ∧ kind ≠ "Output" ∧ kind ≠ "Flatten")
+    (hnt : lookup "type" n.fields = none) (hnm : lookup "metadata" n.fields = none)
+    (hmeta : n.metadata = .dict []) (hnative : ∀ k v, lookup k n.fields = some v → backVal v = some v)
+    (hidem : construct kind (n.fields ++ [("metadata", n.metadata)]) = .ok n) :
+    Supported n ∧ ∀ n', ChildBack n n' → n' = n := by
+  cases n with
+  | mk k f i o m c e =>
+    simp only [Node.kind, Node.children, Node.edges, Node.fields, Node.metadata] at hkind hleaf hnt hnm hmeta hnative hidem
+    obtain ⟨hc, he⟩ := hleaf
+    subst hkind hc he hmeta
+    refine ⟨Supported.generic k f i o ⟨hw, hg⟩ hnt hnm (fun k v hl => not_dict_of_native v (hnative k v hl)), ?_⟩
+    intro n' hcb
+    have e1 : ¬ k = "Input" := hg.2.1
+    have e2 : ¬ k = "Output" := hg.2.2.1
+    have e3 : ¬ k = "Flatten" := hg.2.2.2
+    simp only [ChildBack, e1, e2, e3, if_false] at hcb
+    have h1 := hcb f (by
+      intro key
+      cases hl : lookup key f with
+      | none => rfl
+      | some v => simp [hnative key v hl])
+    rw [← construct_meta_default k f hnm, hidem] at h1
+    exact (Except.ok.inj h1).symm
+
+theorem fileExact_spec (n : Node) (h : FileExact n) : Supported n ∧ ∀ n', ChildBack n n' → n' = n := by
+  cases h with
+  | simple kind kw n hk hc hnot hmeta hnative =>
+    obtain ⟨hkind, hch, he⟩ := construct_kind kind kw n hc
+    obtain ⟨hnt, hnm⟩ := construct_fields_clean kind kw n hk hc
+    obtain ⟨hw, hg⟩ := simple_generic kind hk
+    exact generic_exact kind n hkind ⟨hch, he⟩ hw hg hnt hnm hmeta hnative (construct_idem kind kw n hk hc hnot)
+  | conv2d kw n hc hmeta hnative =>
+    obtain ⟨hkind, hch, he⟩ := construct_kind "Conv2d" kw n hc
+    obtain ⟨hnt, hnm⟩ := construct_conv2d_clean kw n hc
+    exact generic_exact "Conv2d" n hkind ⟨hch, he⟩ (by decide) (by decide) hnt hnm hmeta hnative (construct_idem_conv2d kw n hc)
+  | input s hn =>
+    refine ⟨Supported.input _ _ s rfl (not_dict_of_native s hn), ?_⟩
+    intro n' hcb
+    simp only [ChildBack, if_true] at hcb
+    obtain ⟨s0, hit, hcons⟩ := hcb
+    · have hs : s0 = s := by
+        simp only [getItem, typeDict, lookup, beq_self_eq_true, if_true, Except.ok.injEq] at hit
+        exact hit.symm
+      subst hs
+      have h1 := hcons s0 hn
+      have h2 : construct "Input" [("input_type", typeDict "input" s0)] =
+          .ok (Node.mk "Input" [] (typeDict "input" s0) (typeDict "output" s0) (.dict []) [] []) := rfl
+      rw [h2] at h1
+      exact (Except.ok.inj h1).symm
+  | output s hn =>
+    refine ⟨Supported.output _ _ s rfl (not_dict_of_native s hn), ?_⟩
+    intro n' hcb
+    have e1 : ¬ "Output" = "Input" := by decide
+    simp only [ChildBack, e1, if_false, if_true] at hcb
+    obtain ⟨s0, hot, hcons⟩ := hcb
+    · have hs : s0 = s := by
+        simp only [getItem, typeDict, lookup, beq_self_eq_true, if_true, Except.ok.injEq] at hot
+        exact hot.symm
+      subst hs
+      have h1 := hcons s0 hn
+      have h2 : construct "Output" [("output_type", typeDict "output" s0)] =
+          .ok (Node.mk "Output" [] (typeDict "input" s0) (typeDict "output" s0) (.dict []) [] []) := rfl
+      rw [h2] at h1
+      exact (Except.ok.inj h1).symm
+
+theorem perm_of_lookup {α} (a b : List (String × α)) (ha : (a.map Prod.fst).Nodup) (hb : (b.map Prod.fst).Nodup)
+    (hl : ∀ k, lookup k a = lookup k b) : a.Perm b := by
+  have nodup_pairs : ∀ (l : List (String × α)), (l.map Prod.fst).Nodup → l.Nodup := by
+    intro l h
+    have := List.pairwise_map.mp h
+    exact this.imp (fun hne e => hne (by rw [e]))
+  apply (List.perm_ext_iff_of_nodup (nodup_pairs a ha) (nodup_pairs b hb)).mpr
+  intro kv
+  obtain ⟨k, v⟩ := kv
+  constructor
+  · intro hm
+    have := lookup_of_mem_nodup' a ha k v hm
+    rw [hl] at this
+    exact mem_of_lookup' k v b this
+  · intro hm
+    have := lookup_of_mem_nodup' b hb k v hm
+    rw [← hl] at this
+    exact mem_of_lookup' k v a this
+
+/-- **Exact file round trip of flat graphs, up to the order of the node dictionary**: a graph whose
+children are constructor-built nodes of the parameter-storing classes or Conv2d with file-native
+values, Inputs and Outputs (empty metadata), any edge list: whenever `nir.write` succeeds and
+`nir.read` returns a graph, it is the original graph with its node dictionary re-ordered (the
+file lists links by name) — every node exactly itself, the edge list exactly itself. -/
+theorem graph_file_exact (version : String) (children : Nodes) (edges : List Edge) (it ot : Val)
+    (hkeys : (children.map Prod.fst).Nodup)
+    (hex : ∀ k n, lookup k children = some n → FileExact n)
+    (f : H5) (hwr : write version (Node.mk "NIRGraph" [] it ot (.dict []) children edges) = .ok f)
+    (g' : Node) (hrd : read f = .ok g') :
+    ∃ cs, g' = mkGraph cs edges (.dict []) ∧ cs.Perm children := by
+  obtain ⟨cs, hg, hperm, hch⟩ := graph_end_to_end version children edges it ot hkeys
+    (fun k n hl => (fileExact_spec n (hex k n hl)).1) f hwr g' hrd
+  refine ⟨cs, hg, ?_⟩
+  have hcsn : (cs.map Prod.fst).Nodup := hperm.nodup_iff.mpr hkeys
+  apply perm_of_lookup cs children hcsn hkeys
+  intro k
+  cases hl : lookup k children with
+  | some n =>
+    obtain ⟨n', hn', hcb⟩ := hch k n hl
+    rw [hn', (fileExact_spec n (hex k n hl)).2 n' hcb]
+  | none =>
+    apply lookup_eq_none_of_not_mem
+    intro hm
+    have : k ∈ children.map Prod.fst := hperm.mem_iff.mp hm
+    have := lookup_isSome_of_mem k children this
+    rw [hl] at this; cases this
+
 /-- Non-vacuity of the end-to-end theorems: an LIF node is written, and reading the file is
 the LIF constructor on its four parameter arrays (which accepts them). -/
 def exLifFields : List (String × Val) :=
@@ -530,6 +671,36 @@ example : ∃ f g' cs, write "0.2.0" (mkGraph exChildren exEdges) = .ok f ∧ re
         · exact Supported.output _ _ (Val.ofInts [2]) rfl (by intro d h; cases h)
       obtain ⟨cs, h1, h2, h3⟩ := graph_end_to_end "0.2.0" exChildren exEdges _ _ (by decide) hsup f hf g' hg
       exact ⟨f, g', cs, rfl, hg, h1, h2, h3 "lif" exLif rfl⟩
+
+/-- Non-vacuity of `graph_file_exact`: the same Input → LIF → Output graph is read back as itself
+(node dictionary re-ordered by name). -/
+example : ∃ f g' cs, write "0.2.0" (mkGraph exChildren exEdges) = .ok f ∧ read f = .ok g' ∧
+    g' = mkGraph cs exEdges (.dict []) ∧ cs.Perm exChildren := by
+  have hw : (write "0.2.0" (mkGraph exChildren exEdges)).toBool = true := by decide +kernel
+  have hr : ((write "0.2.0" (mkGraph exChildren exEdges)).bind read).toBool = true := by decide +kernel
+  cases hf : write "0.2.0" (mkGraph exChildren exEdges) with
+  | error e => rw [hf] at hw; cases hw
+  | ok f =>
+    rw [hf] at hr
+    cases hg : read f with
+    | error e => simp only [Except.bind, hg] at hr; cases hr
+    | ok g' =>
+      have hnat : backVal (Val.ofInts [2]) = some (Val.ofInts [2]) := backVal_array _ _ _ _ (by decide)
+      have hex : ∀ k n, lookup k exChildren = some n → FileExact n := by
+        intro k n hl
+        simp only [exChildren, lookup] at hl
+        repeat' split at hl
+        all_goals (first | cases hl | skip)
+        · exact FileExact.input _ hnat
+        · refine FileExact.simple "LIF" exLifFields exLif (by decide) exLif_built ⟨rfl, rfl⟩ rfl ?_
+          intro k v hl
+          simp only [exLif, Node.fields, exLifFields, lookup] at hl
+          repeat' split at hl
+          all_goals (first | cases hl | skip)
+          all_goals exact backVal_array _ _ _ _ (by decide)
+        · exact FileExact.output _ hnat
+      obtain ⟨cs, h1, h2⟩ := graph_file_exact "0.2.0" exChildren exEdges _ _ (by decide) hex f hf g' hg
+      exact ⟨f, g', cs, rfl, hg, h1, h2⟩
 
 /-- Non-vacuity: edges with a duplicate, a self-loop, a dotted and a non-ASCII endpoint. -/
 example : (h5Create (edgesVal [("a", "b"), ("a", "b"), ("b", "b"), ("sub.x", "é")])).map
